@@ -119,6 +119,8 @@ pub const DEC_POOL: &[&str] = &[
     "1.0", "1.10", "1e0", "1e1000", "0.0", "-0.0", "1E+2", "100e-2", "0.1", "1.5", "2.50", "-1e-1000", "0e0",
     "-1.0", "1.00", "3.14", "2.99e6", "1e-400", "-1e1000", "0.5", "123456789012345678901234567890.5",
     "9007199254740993.0", "1.0e500",
+    // jaq's reader accepts an explicit plus sign and keeps the literal as read
+    "+1.5", "+0.0", "+1e2", "+0.5e-3",
 ];
 
 pub const STR_PIECES: &[&[u8]] = &[
@@ -189,7 +191,7 @@ pub fn gen_num(src: &mut Src, cfg: &Cfg) -> MVal {
     match src.weighted(&[6, if cfg.float { 3 } else { 0 }, if cfg.dec { 2 } else { 0 }]) {
         0 => gen_int(src, cfg),
         1 => gen_float(src, cfg),
-        _ if cfg.small_nums => MVal::Dec(src.pick(&["1.0", "1.10", "1e0", "0.0", "-0.0", "1E+1", "100e-2", "0.1", "1.5", "2.50"]).to_string()),
+        _ if cfg.small_nums => MVal::Dec(src.pick(&["1.0", "1.10", "1e0", "0.0", "-0.0", "1E+1", "100e-2", "0.1", "1.5", "2.50", "+1.5", "+0.0"]).to_string()),
         _ => MVal::Dec(src.pick(DEC_POOL).to_string()),
     }
 }
